@@ -26,6 +26,8 @@ void Pipe(util::scoped_fd &first, util::scoped_fd &second) {
 } // namespace
 
 pid_t Launch(char *argv[], util::scoped_fd &in, util::scoped_fd &out) {
+  // execvp(NULL, ...) is undefined (it crashes in the forked child).
+  UTIL_THROW_IF2(!argv || !argv[0], "No command given for the child process");
   util::scoped_fd process_in, process_out;
   Pipe(process_in, in);
   Pipe(out, process_out);
